@@ -122,7 +122,7 @@ def gen(tier, rng):
     for i in range(400 if q else 4000):
         if i % 6 == 5:
             c = M.merge_case(rng, nprobes=2 + i % 2)
-            yield dict(p=PID, probes=c['probes'], factor=1, label=['', 'probe01'][i % 2])
+            yield dict(p=PID, probes=c['probes'], dirnames=c['dirnames'], factor=1, label=['', 'probe01'][i % 2])
             continue
         spec = DC.dense_spec(rng, raw=(i % 3 != 2), feats=(i % 2 == 0), probes=(i % 5 == 0), empty=['none', 'last', 'middle', 'first'][i % 4])
         if i % 4 == 1:
